@@ -77,6 +77,10 @@ pub fn run(outdir: &str, seed: u64, thorough: bool) -> serde_json::Value {
         ("natural", "SELECT * FROM cities NATURAL JOIN users"),
         ("group-by-expr", "SELECT t.age + 1 AS a, COUNT(*) AS n FROM users AS t GROUP BY t.age + 1"),
         ("group-by-alias", "SELECT t.age + 1 AS a, COUNT(*) AS n FROM users AS t GROUP BY a"),
+        ("alias-shadows-column-group-by", "SELECT t.age % 2 AS age, COUNT(t.id) AS c FROM users AS t GROUP BY age"),
+        ("alias-shadows-column-where", "SELECT t.age + 100 AS age, t.id AS i FROM users AS t WHERE age > 5{k}"),
+        ("alias-shadows-column-group-by-qualified", "SELECT t.qty % 2 AS qty, COUNT(t.price) AS c FROM items AS t GROUP BY t.qty"),
+        ("alias-shadows-other-column", "SELECT t.age AS id, t.id AS age FROM users AS t WHERE age > 3{k} AND id < 4{k}"),
         ("agg-and-scalar", "SELECT 1 + SUM(t.amount) AS a, COUNT(t.status) * 2 AS b FROM orders AS t WHERE t.amount > {k}"),
         ("string-literal-quote", "SELECT t.city AS c, 'it''s' AS s FROM users AS t WHERE t.city <> 'O''x'"),
         ("string-literal-adjacent-quotes", "SELECT 'a\'\'\'\'b' AS s, t.age AS a FROM users AS t"),
